@@ -9,69 +9,120 @@ listed in DESIGN.md.  `Out.Clean o` = `o` is `ok _` or `err _` (not `panic`, `ub
 namespace Pelite.Pe
 
 theorem C02_validate (f : Fmt) (img : Img) : (validate f img).Clean := by
-  sorry
+  exact C07_validate_total f img
 
 theorem C02_from_bytes (f : Fmt) (k : Kind) (img : Img) : (fromBytes f k img).Clean := by
-  sorry
+  unfold fromBytes
+  rcases C07_validate_total f img with ⟨n, h⟩ | ⟨e, h⟩ <;> rw [h]
+  · exact Out.clean_ok _
+  · exact Out.clean_err _
 
 theorem C02_wrap_from_bytes (k : Kind) (img : Img) : (wrapFromBytes k img).Clean := by
-  sorry
+  unfold wrapFromBytes
+  rcases C02_from_bytes .pe64 k img with ⟨w, h⟩ | ⟨e, h⟩ <;> rw [h]
+  · exact Out.clean_ok _
+  · cases e <;> first | exact C02_from_bytes .pe32 k img | exact Out.clean_err _
 
 theorem C02_rva_to_file_offset (v : View) (rva : Nat) : (v.rvaToFileOffset rva).Clean := by
-  sorry
+  unfold View.rvaToFileOffset Pe.rvaToFileOffset
+  exact Out.clean_ite (Out.clean_ok _) (r2fSecs_clean _ _)
 
 theorem C02_file_offset_to_rva (v : View) (fo : Nat) : (v.fileOffsetToRva fo).Clean := by
-  sorry
+  unfold View.fileOffsetToRva Pe.fileOffsetToRva
+  exact Out.clean_ite (Out.clean_ok _) (f2rSecs_clean _ _)
 
 theorem C02_rva_to_va (v : View) (rva : Nat) : (v.rvaToVa rva).Clean := by
-  sorry
+  unfold View.rvaToVa
+  exact Out.clean_ite (Out.clean_err _)
+    (Out.clean_ite (Out.clean_ite (Out.clean_ok _) (Out.clean_err _)) (Out.clean_err _))
 
 theorem C02_va_to_rva (v : View) (va : Nat) : (v.vaToRva va).Clean := by
-  sorry
+  unfold View.vaToRva
+  exact Out.clean_ite (Out.clean_err _) (Out.clean_ite (Out.clean_err _) (Out.clean_ok _))
 
 /-- `slice` / `read` are total for every power-of-two alignment (every alignment the typed API
 passes); for other alignments the checked build hits `debug_assert!` in `AlignTo` — known finding. -/
 theorem C02_slice (v : View) (rva min align : Nat) (hp : isPow2 align = true) : (v.slice rva min align).Clean := by
-  sorry
+  exact v.at_clean (.rva rva) min align hp
 
 theorem C02_read (v : View) (va min align : Nat) (hp : isPow2 align = true) : (v.read va min align).Clean := by
-  sorry
+  exact v.at_clean (.va va) min align hp
 
 /-- the one way `slice` can panic: a non-power-of-two alignment on a non-null address -/
 theorem C02_slice_panics_only_if (v : View) (rva min align : Nat) (s : String)
     (h : v.slice rva min align = .panic s) : isPow2 align = false ∧ rva ≠ 0 := by
-  sorry
+  rcases v.slice_shape rva min align with hc | ⟨h1, h2, -⟩
+  · exact absurd h (hc.ne_panic s)
+  · exact ⟨h1, h2⟩
 
 theorem C02_section_bytes (v : View) (s : Sec) : (v.sectionBytes s).Clean := by
-  sorry
+  obtain ⟨img, fmt, kind, ib⟩ := v
+  cases kind
+  · show (if s.prd = 0 then Out.err Err.null
+      else if s.prd ≤ wadd32 s.prd s.rs ∧ wadd32 s.prd s.rs ≤ img.bytes.size then
+        Out.ok (⟨s.prd, wadd32 s.prd s.rs - s.prd, 1⟩ : Ref) else .err .bounds).Clean
+    exact Out.clean_ite (Out.clean_err _) (Out.clean_ite (Out.clean_ok _) (Out.clean_err _))
+  · show (if s.va = 0 then Out.err Err.null
+      else if s.va ≤ wadd32 s.va s.vs ∧ wadd32 s.va s.vs ≤ img.bytes.size then
+        Out.ok (⟨s.va, wadd32 s.va s.vs - s.va, 1⟩ : Ref) else .err .bounds).Clean
+    exact Out.clean_ite (Out.clean_err _) (Out.clean_ite (Out.clean_ok _) (Out.clean_err _))
 
 theorem C02_derva (v : View) (a : Addr) (size align : Nat) (hp : isPow2 align = true) : (v.derva a size align).Clean := by
-  sorry
+  unfold View.derva
+  rcases v.at_clean a size align hp with ⟨r, h⟩ | ⟨e, h⟩ <;> rw [h]
+  · exact Out.clean_ok _
+  · exact Out.clean_err _
 
 theorem C02_derva_copy (v : View) (a : Addr) (size : Nat) : (v.dervaCopy a size).Clean := by
-  sorry
+  unfold View.dervaCopy
+  rcases v.at_clean a size 1 isPow2_one with ⟨r, h⟩ | ⟨e, h⟩ <;> rw [h]
+  · exact Out.clean_ok _
+  · exact Out.clean_err _
 
 theorem C02_derva_into (v : View) (a : Addr) (len : Nat) : (v.dervaInto a len).Clean := by
-  sorry
+  unfold View.dervaInto
+  rcases v.at_clean a len 1 isPow2_one with ⟨r, h⟩ | ⟨e, h⟩ <;> rw [h]
+  · exact Out.clean_ok _
+  · exact Out.clean_err _
 
 theorem C02_derva_slice (v : View) (a : Addr) (size align len : Nat) (hp : isPow2 align = true) :
     (v.dervaSlice a size align len).Clean := by
-  sorry
+  unfold View.dervaSlice
+  refine Out.clean_ite (Out.clean_err _) ?_
+  rcases v.at_clean a (size * len) align hp with ⟨r, h⟩ | ⟨e, h⟩ <;> rw [h]
+  · exact Out.clean_ok _
+  · exact Out.clean_err _
 
 theorem C02_derva_slice_s (v : View) (a : Addr) (size align sentinel : Nat) (hs : 1 ≤ size) (hp : isPow2 align = true) :
     (v.dervaSliceS a size align sentinel).Clean := by
-  sorry
+  unfold View.dervaSliceS View.dervaSliceF
+  rcases v.at_clean a 0 align hp with ⟨r, h⟩ | ⟨e, h⟩ <;> rw [h]
+  · simp only
+    rcases sliceFLoop_clean (b := v.b) (off := r.off) (blen := r.len) (stop := fun x => x == sentinel) hs
+      (r.len + 2) 0 (by omega) (by omega) with ⟨n, hn⟩ | ⟨e, hn⟩ <;> rw [hn]
+    · exact Out.clean_ok _
+    · exact Out.clean_err _
+  · exact Out.clean_err _
 
 theorem C02_derva_cstr (v : View) (a : Addr) : (v.dervaCStr a).Clean := by
-  sorry
+  unfold View.dervaCStr
+  rcases v.at_clean a 0 1 isPow2_one with ⟨r, h⟩ | ⟨e, h⟩ <;> rw [h]
+  · simp only
+    cases cstrFromBytes v.b r.off r.len
+    · exact Out.clean_err _
+    · exact Out.clean_ok _
+  · exact Out.clean_err _
 
 /-- the string enumerator returns a list for every byte string and every configuration with
 thresholds ≥ 1 (from C20) -/
 theorem C02_strings (bytes : Bytes) (cfg : Strings.Config) (hm : 1 ≤ cfg.minLen) (hn : 1 ≤ cfg.minLenNul) :
     (Strings.enumAll bytes cfg (bytes.size + 2) 0).Clean := by
-  sorry
+  obtain ⟨fs, h, -⟩ := Strings.C20_enumerate_exact bytes cfg hm hn
+  rw [h]
+  exact Out.clean_ok _
 
 theorem C02_relocs_parse (img : Img) : (Relocs.parse img).Clean := by
-  sorry
+  unfold Relocs.parse
+  exact Out.clean_ite (Out.clean_ok _) (Out.clean_err _)
 
 end Pelite.Pe
